@@ -152,3 +152,39 @@ def op_taint2(req):
 
 
 OPS['taint2'] = op_taint2
+
+
+def op_execdiff(req):
+    """Run the source and its minified form in this interpreter and compare what they print (used for 2.7-only value/type checks)."""
+    import io
+    src = _src(req)
+    try:
+        out = python_minifier.minify(src, **kwargs(req['opts']))
+    except BaseException as e:
+        return {'domain': False, 'why': 'minify raises ' + type(e).__name__}
+
+    def run(code):
+        buf = io.BytesIO() if PY2 else io.StringIO()
+        old = sys.stdout
+        sys.stdout = buf
+        try:
+            try:
+                exec(compile(code, '<execdiff>', 'exec'), {'__name__': '__main__'})
+                end = 'normal'
+            except BaseException as e:
+                end = 'raises ' + type(e).__name__
+        finally:
+            sys.stdout = old
+        v = buf.getvalue()
+        if PY2 and isinstance(v, bytes):
+            v = v.decode('utf-8', 'replace')
+        return [v, end]
+
+    a = run(src)
+    b = run(out.encode('utf-8') if PY2 else out)
+    if a != b:
+        return {'ok': False, 'signature': ['behaviour-differs-in-this-interpreter'], 'observed': {'original': a, 'minified': b, 'out': out[:800]}}
+    return {'ok': True, 'changed': out != (src.decode('utf-8') if PY2 else src), 'stdout': a[0][:200]}
+
+
+OPS['execdiff'] = op_execdiff
